@@ -351,15 +351,6 @@ func staticRouting(f FileSpec, file *ast.File) error {
 			if r.impl != gm {
 				return fmt.Errorf("method %s.%s is served by svc.%s, want svc.%s", fq, m.Name, r.impl, gm)
 			}
-			found := ""
-			for field, p := range clientPaths {
-				if strings.EqualFold(strings.TrimPrefix(field, "_"), gm) {
-					found = p
-				}
-			}
-			if found != want {
-				return fmt.Errorf("method %s.%s: client is constructed with path %q (fields %v), canonical is %q", fq, m.Name, found, clientPaths, want)
-			}
 			// client method calls the matching Call*
 			var cm *ast.FuncDecl
 			for name, fd := range funcs {
@@ -376,15 +367,25 @@ func staticRouting(f FileSpec, file *ast.File) error {
 			if kindOf(m) == "Unary" {
 				wantCall = "CallUnary"
 			}
-			gotCall := ""
+			gotCall, field := "", ""
 			ast.Inspect(cm.Body, func(n ast.Node) bool {
 				if c, ok := n.(*ast.CallExpr); ok && strings.HasPrefix(selName(c.Fun), "Call") {
 					gotCall = selName(c.Fun)
+					// c.<field>.CallXxx(...): the client the method delegates to
+					if outer, ok := c.Fun.(*ast.SelectorExpr); ok {
+						if inner, ok := outer.X.(*ast.SelectorExpr); ok {
+							field = inner.Sel.Name
+						}
+					}
 				}
 				return true
 			})
 			if gotCall != wantCall {
 				return fmt.Errorf("client method %s.%s calls %s, want %s", fq, m.Name, gotCall, wantCall)
+			}
+			// … and that client was constructed with the canonical path
+			if found, ok := clientPaths[field]; !ok || found != want {
+				return fmt.Errorf("method %s.%s: the client method delegates to field %q, which is constructed with path %q (fields %v), canonical is %q", fq, m.Name, field, found, clientPaths, want)
 			}
 		}
 	}
@@ -536,7 +537,7 @@ func isOddName(n string) bool {
 	}
 	l := strings.ToLower(n[:1]) + n[1:]
 	for _, k := range append(append([]string{}, goKeywords...), predeclared...) {
-		if l == k {
+		if l == k || strings.ToLower(n) == k {
 			return true
 		}
 	}
@@ -546,7 +547,18 @@ func isOddName(n string) bool {
 func title(s string) string { return strings.ToUpper(s[:1]) + s[1:] }
 
 func nameGen(t *rapid.T, label string) string {
-	switch rapid.IntRange(0, 5).Draw(t, label+"Class") {
+	switch rapid.IntRange(0, 6).Draw(t, label+"Class") {
+	case 6:
+		// other casings of keyword-like names: GO, IF, MAP, TYPE, gO, …
+		kw := rapid.SampledFrom(append(append([]string{}, goKeywords...), predeclared...)).Draw(t, label+"KwAny")
+		b := []byte(kw)
+		up := rapid.SampledFrom([]string{"all", "all", "mask"}).Draw(t, label+"Casing")
+		for i := range b {
+			if up == "all" || rapid.Bool().Draw(t, label+"Up") {
+				b[i] = byte(strings.ToUpper(string(b[i]))[0])
+			}
+		}
+		return string(b)
 	case 0:
 		return title(rapid.SampledFrom(goKeywords).Draw(t, label+"Kw"))
 	case 1:
@@ -556,7 +568,7 @@ func nameGen(t *rapid.T, label string) string {
 	case 3:
 		return rapid.SampledFrom([]string{"ping", "doIt", "sum2", "x"}).Draw(t, label+"Lower")
 	default:
-		return rapid.SampledFrom([]string{"Ping", "Sum", "CountUp", "CumSum", "Fail", "GetUser", "ListUsers", "Watch", "Upload", "Chat", "Do", "A1", "HTTPGet"}).Draw(t, label+"Plain")
+		return rapid.SampledFrom([]string{"Ping", "Sum", "CountUp", "CumSum", "Fail", "GetUser", "ListUsers", "Watch", "Upload", "Chat", "Do", "A1", "HTTPGet", "HttpGet", "IDLookup", "GOTo", "URL"}).Draw(t, label+"Plain")
 	}
 }
 
@@ -604,7 +616,7 @@ func gen(t *rapid.T) FileSpec {
 
 var spec = pbt.Spec[FileSpec]{
 	Prop: "C17", Name: "descriptors", Gen: gen, Check: check,
-	Rule: "FileDescriptorProtos built by construction and validated with protodesc: package absent / single / dotted; 0..3 services × 1..5 methods × 4 streaming kinds; service and method names from a grammar incl. snake_case, lower-case initials, digits and every name whose lower-camel form is a Go keyword or predeclared identifier; deprecated file/service/method options; leading comments (multi-line, '*/', non-ASCII); messages local, nested, imported from a file with another go_package, well-known types; go_package with/without ';name'; paths=import / source_relative / module=; optionally a second file in the same plugin invocation that declares services with the same names in another package. The plugin binary is built from /repo's tree and fed CodeGeneratorRequests. Oracle: exits 0 without error; no output for files without services; two runs byte-identical; expected file name and package; output parses and type-checks (go/types against export data of /repo's connect package and the protoc-gen-go output); per method, handler registration, Spec procedure and client constructor use the canonical '/<fully-qualified service>/<method>' with the constructor and Call* matching the streaming kind; mount prefix '/<fq service>/'; <Service>Name constants. Go-name collisions that protoc permits are discarded (labelled). Non-trivial = ≥2 methods of different kinds, or a keyword-like/snake_case name, or no package, or an imported message type",
+	Rule: "FileDescriptorProtos built by construction and validated with protodesc: package absent / single / dotted; 0..3 services × 1..5 methods × 4 streaming kinds; service and method names from a grammar incl. snake_case, lower-case initials, digits and every name whose lower-camel form is a Go keyword or predeclared identifier in any casing (Type, TYPE, tYpE) and names with leading initialisms (HTTPGet next to HttpGet); deprecated file/service/method options; leading comments (multi-line, '*/', non-ASCII); messages local, nested, imported from a file with another go_package, well-known types; go_package with/without ';name'; paths=import / source_relative / module=; optionally a second file in the same plugin invocation that declares services with the same names in another package. The plugin binary is built from /repo's tree and fed CodeGeneratorRequests. Oracle: exits 0 without error; no output for files without services; two runs byte-identical; expected file name and package; output parses and type-checks (go/types against export data of /repo's connect package and the protoc-gen-go output); per method, handler registration, Spec procedure and client constructor use the canonical '/<fully-qualified service>/<method>' with the constructor and Call* matching the streaming kind; mount prefix '/<fq service>/'; <Service>Name constants. Go-name collisions that protoc permits are discarded (labelled). Non-trivial = ≥2 methods of different kinds, or a keyword-like/snake_case name, or no package, or an imported message type",
 }
 
 func TestDescriptors(t *testing.T) { pbt.Run(t, spec) }
